@@ -137,4 +137,51 @@ def c07(tier):
     return finish('C07', tier, v, cov, te, wall)
 
 
-CHECKS = {'C07': c07, 'C17': c17, 'C04': c04, 'C01': c01, 'C02': c02, 'C03': c03, 'C05': c05, 'C11': c11, 'C14': c14}
+def confirm_hang(prog, inv, tracefile, bindir, d):
+    """replay a NotHung counterexample: run the history and the command in flight on the real code and
+    see whether it really fails to terminate (several attempts: the hang needs a particular schedule)"""
+    import json
+    import os
+    import harness
+    if inv != 'NotHung' or not os.path.exists(tracefile):
+        return None
+    t = json.load(open(tracefile))
+    fin = t['counterexample']['state'][-1][1]
+    cmd = fin['cmd']
+    for attempt in range(6):
+        pj = harness.Project(prog, os.path.join(d, 'confirm_hang'), bindir, jitter=True)
+        for step in fin['hist']:
+            if step['a'] == 'write':
+                pj.write_user(step['n'], step['v'])
+            elif step['a'] == 'rm':
+                pj.remove(step['n'])
+            elif step['a'] in ('doedit', 'doadd'):
+                pj.write_do(step['n'], step['v'])
+            elif step['a'] == 'cmd':
+                argv = ['redo-ifchange' if step['kind'] == 'ifchange' else 'redo']
+                if step.get('j', 1) > 1:
+                    argv.append('-j%d' % step['j'])
+                pj.run(argv + list(step['targs']), timeout=20)
+        argv = ['redo-ifchange' if cmd['kind'] == 'ifchange' else 'redo']
+        if cmd.get('j', 1) > 1:
+            argv.append('-j%d' % cmd['j'])
+        rc, so, se, started, to = pj.run(argv + list(cmd['targs']), timeout=8)
+        if to:
+            return True
+    return False
+
+
+def c12(tier):
+    family = programs.cycle_family()
+    v, cov, te, wall = syscheck.run_family(
+        'C12', tier, family, ['NotHung', 'NoPanic', 'CycleReported'], [],
+        {'rc', 'ran', 'codes', 'file', 'row.failed'},
+        (2, 2), sample_n=None, cmd_timeout=12, jitter=True, repeat=3 if tier == 'thorough' else 1,
+        confirm_spec=confirm_hang, min_cmds=1,
+        note='cycles of length 1..3, behind an acyclic prefix, with an acyclic sibling, two entry points at -j2, '
+             'and a 5-target chain (file ids reaching two digits); first build and rebuild (recorded edges); '
+             'NotHung = some process can always move (TLC ENABLED); real commands run under a 12 s limit')
+    return finish('C12', tier, v, cov, te, wall)
+
+
+CHECKS = {'C12': c12, 'C07': c07, 'C17': c17, 'C04': c04, 'C01': c01, 'C02': c02, 'C03': c03, 'C05': c05, 'C11': c11, 'C14': c14}
